@@ -64,7 +64,15 @@ def check(run, replay=None):
     for kind in ("V1SC", "V2SC"):
         for call in ("r:1:8388608", "w:8388608:1:3", "r:2:16777215", "w:4294967295:2:3"):
             over.append(S.Scn("V%d" % n, 0, 50, ["gt", call, "gt"], kind=kind, csd=S.csd_for(kind), memseed=1, tseed=n, tag="overflow")); n += 1
-    allscn = legal + over
+    # the card is exchanged for one with another CSD while the driver object lives on: after mark_card_uninit the
+    # capacity is the NEW card's (nothing read from the old card may be kept)
+    swaps = []
+    for j, (kind, c1, c2) in enumerate((("V2HC", S.csd_v2(15159), S.csd_v2(3874)), ("V1SC", S.csd_v1(4095, 7, 9), S.csd_v1(2000, 5, 9)),
+                                        ("V2HC", S.csd_v2(3874), S.csd_v2(60000)), ("V2SC", S.csd_v1(1000, 6, 10), S.csd_v1(4095, 7, 10)))):
+        for crc in (0, 1):
+            swaps.append(S.Scn("X%d" % (2 * j + crc), crc, 50, ["nb", "ny", "r:1:3", "sw:" + c2, "mu", "gt", "nb", "ny", "r:1:3", "w:2:1:7", "nb"],
+                               kind=kind, csd=c1, memseed=5 + j, tseed=40 + j, tag="swap"))
+    allscn = legal + over + swaps
     ires = tie.run_impl(allscn)
     mres = tie.run_model(allscn, ires)
     diffs = tie.compare(allscn, ires, mres)
@@ -118,9 +126,10 @@ def check(run, replay=None):
                         bad.append((s, k, "write changed other blocks / stored other bytes: extra=%s wrong=%s" % (extra, wrong)))
             elif p[0] in ("nb", "ny"):
                 ncap += 1
-                exp = min(r.card[1], (1 << 32) - 1) if p[0] == "nb" else r.card[2]
+                card = r.card_for(k)
+                exp = min(card[1], (1 << 32) - 1) if p[0] == "nb" else card[2]
                 if res != "ok num %d" % exp:
-                    bad.append((s, k, "capacity %s, the card's CSD (structure version %d) encodes %d" % (res, int(s.csd[0], 16) >> 2, exp)))
+                    bad.append((s, k, "capacity %s, the CSD of the card in the slot (structure version %d) encodes %d" % (res, int(s.csd[0], 16) >> 2, exp)))
             elif p[0] == "gt":
                 if res != "ok type " + TYPE_OF[s.kind]:
                     bad.append((s, k, "card kind %s identified as %s" % (s.kind, res)))
